@@ -155,7 +155,7 @@ func runHubSeq(a args) error {
 	admin := hx.HSToken(map[string]any{"publish": []string{"*"}})
 	for ci := 0; ci < a.n; ci++ {
 		kind := []string{"bolt", "bolt", "local"}[r.Intn(3)]
-		tracking := r.Chance(0.25)
+		tracking := r.Chance(0.25) || ci%16 == 11
 		size := uint64(0)
 		if kind == "bolt" && r.Chance(0.3) && !tracking {
 			size = uint64(2 + r.Intn(2))
@@ -196,7 +196,8 @@ func runHubSeq(a args) error {
 		var announcedIdx []int // subscribers whose active=true event could be dispatched, in order
 		nops := 6 + r.Intn(14)
 		auth := http.Header{"Authorization": {"Bearer " + admin}}
-		overflowPlan := ci%8 == 3 && !tracking // a slow subscriber is cut off while another one keeps reading
+		// a slow subscriber is cut off while another one keeps reading (every 16th case: with subscription events on)
+		overflowPlan := (ci%8 == 3 && !tracking) || ci%16 == 11
 		resumeAll := func() {
 			for i, s := range subs {
 				if s.stalled {
